@@ -1,33 +1,25 @@
 SPECIFICATION Spec
 CONSTANTS
   NV = 2
-  StabV = {}
-  NP = 2
+  StabV = {2}
+  NP = 3
   UseQueue = TRUE
-  SkipQueue = TRUE
+  SkipQueue = FALSE
   Faults = FALSE
   FaultKinds = {"crash", "reject", "third"}
-  MaxC = 9
+  MaxC = 40
   RepStatuses = {"SUCCESSFUL", "FAILED"}
   Atomic = TRUE
   ReportFine = FALSE
-  AutoApprove = TRUE
-  Opts = {"nooct"}
-  ReportOnce = TRUE
-  MaxLevel = 9
-  EmitJson = FALSE
+  AutoApprove = FALSE
+  Opts = {"byp", "wait", "unwait", "nooct"}
+  ReportOnce = FALSE
+  MaxLevel = 100
+  EmitJson = TRUE
   PruneOnlyOwned = FALSE
   AtomicPush = TRUE
   FixSelect = TRUE
   FixDirect = TRUE
 CONSTRAINT Bound
 VIEW View
-INVARIANT C01_Incl
-INVARIANT C02_AllOrNone
-INVARIANT C05_Select
-INVARIANT C19_Children
-PROPERTY C03_Green
-PROPERTY C08_FF
-PROPERTY C08_Foreign
-PROPERTY C12_Held
 CHECK_DEADLOCK FALSE
